@@ -1,5 +1,6 @@
 """C18 — constant-time predicates and selectors return the ordinary answer."""
-LEAN_MODULES = ["CxVerif.Props.C18"]
+from props import _auto as _auto_mods
+LEAN_MODULES = _auto_mods.lean_modules("C18")
 VARIANTS = ["default"]
 RULE = ("all 2^16 byte pairs (thorough; quick: a 4096-pair stratified subset incl. every a==b and |a-b|<=1), all pairs "
         "over the 64-bit boundary set for 8 predicates, random 64-bit pairs, byte/word arrays of length 0..=40 equal or "
